@@ -793,7 +793,7 @@ namespace c15
         {
           if(Desc_::affine_only() && !geo_is_affine(geo)) continue; // documented precondition of the family
           if(!c.thorough && !small && g != 0 && g != nsym - 1) continue;
-          int level = 1;
+          int level = (small || g == nsym - 1) ? 1 : 0;
           if(g == 0 && (c.thorough || small || geo == geos.back())) level = 2;
           for(const Twist& tw : twist_list(D, simplex, ne1, nf1, level))
           {
@@ -810,7 +810,7 @@ namespace c15
       if(!c.thorough && !small) { opt.lattice_extra = 0; opt.use_qk_base = false; }
       const bool full = c.thorough || small;
       std::vector<int> geos = simplex ? (full ? std::vector<int>{0, 1, 2} : std::vector<int>{1})
-                                      : (full ? std::vector<int>{0, 1, 3, 4} : std::vector<int>{1, 3});
+                                      : (small ? std::vector<int>{0, 1, 3, 4} : std::vector<int>{1, 3});
       if(Desc_::affine_only())
       {
         std::vector<int> ag;
